@@ -322,3 +322,8 @@ SUBCHECKS = [
         doc="sequence of throws + position queries on one object == fresh object per batch, bit for bit (all public per-event arrays and accessors)",
     ),
 ]
+
+# the same oracles in interpreters started with -O / -OO (see core.env_variant)
+from ..core import env_variant  # noqa: E402
+
+SUBCHECKS.append(env_variant(__name__, next(sc for sc in SUBCHECKS if sc.name == "throw")))
